@@ -157,8 +157,50 @@ def ob_like_without(ctx):
 from symx.run import ReplayMk as _Replay
 
 
+def ob_many_refs(ctx):
+    """long reference lists: the cited index ranges over 1..R (two-digit indices, indices containing 0)"""
+    st = ctx.stack
+    P = ctx.P
+    R = P["R"]
+    Mod, Vec = sliced_classes(st)
+    refs = [make_ref(st, "ref-%02d" % k) for k in range(1, R + 1)]
+    i1 = 1 + ctx.mk.pick("i1", R)
+    i2 = 1 + ctx.mk.pick("i2", R)
+    f = st.SeqFeature(st.SimpleLocation(3, 6, strand=1), type="CDS", qualifiers={"label": ["L"], "citation": ["[%d]" % i1, "[%d]" % i2]})
+    m = st.record.CircularRecord(st.Seq("ACGTTGCAAGCT"), id="m", features=[f], annotations={"topology": "circular", "references": refs})
+    vrefs = [make_ref(st, "ref-%02d" % k) for k in (2, 30, 10)]
+    g = st.SeqFeature(st.SimpleLocation(9, 11, strand=1), type="CDS", qualifiers={"label": ["V"], "citation": ["[3]", "[1]"]})
+    v = st.record.CircularRecord(st.Seq("ACGTTGCAAGCT"), id="v", features=[g], annotations={"topology": "circular", "references": vrefs})
+    before = [snapshot(m), snapshot(v)]
+    out = run_assemble(st, Vec(v, st.Seq("CC"), st.Seq("AA"), SP), [Mod(m, st.Seq("AA"), st.Seq("CC"), SP)], id="p", name="p")
+    ctx.require(out["kind"] == "product", "assembly-with-citations-failed:" + out["kind"])
+    prod = out["product"]
+    prefs = prod.annotations.get("references", [])
+    titles = [r.title for r in prefs]
+    ctx.require(len(set(titles)) == len(titles), "duplicate-reference-in-product")
+    want = {"L": ["ref-%02d" % i1, "ref-%02d" % i2], "V": ["ref-10", "ref-02"]}
+    seen = 0
+    for ft in prod.features:
+        if ft.type == "source":
+            continue
+        got = ft.qualifiers.get("citation", [])
+        w = want[ft.qualifiers["label"][0]]
+        ctx.require(len(got) == len(w), "citation-count-changed")
+        for c, t in zip(got, w):
+            mt = CIT.match(c) if isinstance(c, str) else None
+            ctx.require(mt is not None, "citation-not-in-bracketed-index-form:%r" % (c,))
+            ctx.require(1 <= int(mt.group(1)) <= len(prefs) and prefs[int(mt.group(1)) - 1].title == t,
+                        "citation-points-to-another-reference")
+        seen += 1
+    ctx.require(seen == 2, "cited-feature-lost")
+    for a, b in zip(before, [snapshot(m), snapshot(v)]):
+        ctx.require(snap_equal(a, b), "input-changed")
+    return True
+
+
 def obligations(tier, seed):
-    obs = []
+    obs = [Ob("long reference list R=%d (two-digit citation indices)" % R, ob_many_refs, dict(R=R), samples=6, cost=R * R)
+           for R in tier_pick(tier, [12], [12, 21, 101])]
     shapes = [dict(m=1, nref=[1, 1], nfeat=[1, 1], ncit=[1, 1]), dict(m=1, nref=[2, 0], nfeat=[1, 0], ncit=[2, 0]),
               dict(m=1, nref=[2, 2], nfeat=[1, 1], ncit=[1, 2]), dict(m=1, nref=[2, 1], nfeat=[1, 1], ncit=[0, 1]),
               dict(m=2, nref=[1, 1, 1], nfeat=[1, 1, 1], ncit=[1, 1, 1])]
